@@ -457,6 +457,44 @@ def _is_failure_send(call, func=None) -> bool:
     return is_failure_send(call) or _sends(call, func, "BenchmarkFailure")
 
 
+def _reads_params(exprs, func) -> bool:
+    """one of the expressions (looked at through single-assignment locals) reads a parameter of func other than self / cls"""
+    a = func.args
+    own = [x.arg for x in a.posonlyargs + a.args + a.kwonlyargs] + [x.arg for x in (a.vararg, a.kwarg) if x is not None]
+    if own and own[0] in ("self", "cls"):
+        own = own[1:]
+    own = set(own)
+    for e in exprs:
+        v = _through_locals(e.value if isinstance(e, ast.Starred) else e, func)
+        if any(isinstance(x, ast.Name) and isinstance(x.ctx, ast.Load) and x.id in own for x in ast.walk(v)):
+            return True
+    return False
+
+
+def _report_call_sites(ctor, func, cls, mod, depth=0) -> list:
+    """The call sites that stand for the message construction `ctor` when it sits in a reporting helper: a method of the class (called as self.<name>(..) from the
+    class) or a module-level function (called by name in its module) that builds the message from its own parameters. Seen with the helper inlined, every such
+    call is one construction of the message; a call that in turn only passes its caller's parameters on is followed to that caller's call sites (two levels).
+    -> [(call, [helper names, outermost first])]; [] when the message is not built from parameters or the function has no call site (the construction is the instance)."""
+    if func is None or isinstance(func, ast.Lambda) or not _reads_params(list(ctor.args) + [k.value for k in ctor.keywords], func):
+        return []
+    if cls is not None and any(m_ is func for m_ in cls.body):
+        sites = [c for c in ast.walk(cls) if isinstance(c, ast.Call) and is_self_attr(c.func) and c.func.attr == func.name]
+    elif cls is None and any(s_ is func for s_ in mod.tree.body):
+        sites = [c for c in ast.walk(mod.tree) if isinstance(c, ast.Call) and isinstance(c.func, ast.Name) and c.func.id == func.name]
+    else:
+        return []
+    out = []
+    for c in sites:
+        caller = source.enclosing_func(c)
+        outer = _report_call_sites(c, caller, source.enclosing_class(c), mod, depth + 1) if depth < 2 and caller is not None and caller is not func else []
+        if outer:
+            out += [(c2, chain + [func.name]) for c2, chain in outer]
+        else:
+            out.append((c, [func.name]))
+    return out
+
+
 def _report_sites(model, a, f, msg_names: set, addr_attrs: set, accept_failure: bool, depth=0):
     """(recognised, unrecognised) sites in f that report upwards: self.send(<address>, <m>) with m one of msg_names (the message being forwarded) or - with accept_failure -
     a freshly built BenchmarkFailure, and calls of helper methods of the class that do so on every path of theirs (handed the message where one is forwarded).
@@ -1491,7 +1529,7 @@ def run(chk):
     # ---- O9.4 every failure message is sent -------------------------------------------------------
     chk.rule("O9.4", "every construction of BenchmarkFailure/BenchmarkCancelled in the package is the payload of send/ask/tell to an address "
              "(address attribute, sender, getattr(msg,'reply_to',sender); directly, via a single-assignment local, a factory method or a helper method that sends its parameter; "
-             "a target the rule cannot classify is 'not recognised', never a violation); address attributes are never called", 15,
+             "a reporting helper that builds the message from its own parameters counts once per call site, as if inlined; a target the rule cannot classify is 'not recognised', never a violation); address attributes are never called", 15,
              "the failure object is built and dropped (or an ActorAddress is 'called', raising TypeError): race control is never told")
     all_addr = set()
     for a in model.actors:
@@ -1576,8 +1614,18 @@ def run(chk):
                 if ok is None:
                     chk.unknown("O9.4", f"{source.qualname(n)}: {last_attr(n.func)} {detail}", n)
                     continue
-                chk.ob("O9.4", f"{source.qualname(n)}: {last_attr(n.func)}", ok, n, detail,
-                       key=f"{m.relpath}:{source.qualname(n)}:{last_attr(n.func)}({short(n.args[0], 50) if n.args else ''})")
+                # a reporting helper (`def _report_failure(self, message, cause=None): self.send(<parent>, BenchmarkFailure(message, cause))`) builds the
+                # message from its own parameters: the failure reports are then its call sites (the construction seen with the helper inlined), one instance
+                # each with the verdict of the construction they all share. Without a call site the construction itself is the instance, as before.
+                reports = _report_call_sites(n, f, cls, m)
+                if not reports:
+                    chk.ob("O9.4", f"{source.qualname(n)}: {last_attr(n.func)}", ok, n, detail,
+                           key=f"{m.relpath}:{source.qualname(n)}:{last_attr(n.func)}({short(n.args[0], 50) if n.args else ''})")
+                for site, chain in reports:
+                    via = " -> ".join(chain)
+                    first = next((a_ for a_ in site.args if not isinstance(a_, ast.Starred)), None)
+                    chk.ob("O9.4", f"{source.qualname(site)}: {last_attr(n.func)} built by {via}()", ok, site, f"in {via}(): {detail}",
+                           key=f"{m.relpath}:{source.qualname(site)}:{last_attr(n.func)}:{via}({short(first, 50) if first is not None else ''})")
     # address attributes never called
     for a in model.actors:
         for m in a.methods.values():
@@ -2528,6 +2576,19 @@ def _x_body_helper(when_cancelled="True", test="self.cancel.is_set()"):
         return helper + m.group(1) + loop[:at].replace(_X_CANCEL, "") + f"                if await self._one_request({args}):\n                    break\n" + m.group(3)
     return f
 
+
+def _x_report_helper(body, kind, name, rule=None):
+    """benign/C09-b12: DriverActor's three inline failure reports go through one helper method whose body is `body`"""
+    return [V(name, kind, _D, "        self.send(self.benchmark_actor, actor.BenchmarkFailure(\"Fatal track or load generator indication\", poisonmsg.details))\n",
+              "        self._report_failure(\"Fatal track or load generator indication\", poisonmsg.details)\n", rule),
+            V("", kind, _D, "                self.send(self.benchmark_actor, actor.BenchmarkFailure(f\"Worker [{worker_index}] has exited prematurely.\"))\n",
+              "                self._report_failure(f\"Worker [{worker_index}] has exited prematurely.\")\n"),
+            V("", kind, _D, "            self.send(self.benchmark_actor, actor.BenchmarkFailure(\"A track preparator has exited prematurely.\"))\n",
+              "            self._report_failure(\"A track preparator has exited prematurely.\")\n"),
+            V("", kind, _D, "    def receiveUnrecognizedMessage(self, msg, sender):\n        self.logger.debug(\"Main driver received unknown",
+              "    def _report_failure(self, message, cause=None):\n" + body + "\n    def receiveUnrecognizedMessage(self, msg, sender):\n        self.logger.debug(\"Main driver received unknown")]
+
+
 _R = "esrally/racecontrol.py"
 _M = "esrally/mechanic/mechanic.py"
 _A = "esrally/actor.py"
@@ -2815,6 +2876,11 @@ VARIANTS = [
        "        if type(e) is elasticsearch.ConnectionError:\n            fatal_error = True\n\n", ""),
      V("", "keep", _D, "                request_meta_data[\"http-status\"] = e.errors[0].status\n",
        "                request_meta_data[\"http-status\"] = e.errors[0].status\n        if type(e) is elasticsearch.ConnectionError:\n            fatal_error = True\n")],
+    # O9.4: the reporting helper of benign/C09-b12 - three constructions of the driver actor become one, inside `_report_failure(message, cause=None)`; the reports are its call sites
+    _x_report_helper("        self.send(self.benchmark_actor, actor.BenchmarkFailure(message, cause))\n", "keep", "driver actor reports failures through _report_failure(message, cause)"),
+    _x_report_helper("        failure = actor.BenchmarkFailure(message, cause)\n        self.send(self.benchmark_actor, failure)\n", "keep", "_report_failure binds the message to a local before it sends it"),
+    _x_report_helper("        self.logger.error(\"%s\", actor.BenchmarkFailure(message, cause))\n", "break", "_report_failure only logs the failure message it builds", "O9.4"),
+    _x_report_helper("        self.send(None, actor.BenchmarkFailure(message, cause))\n", "break", "_report_failure sends the failure to None instead of an actor address", "O9.4"),
     V("fatal classification spelled with __class__ the other way round, meta data built with update()", "keep", _D,
       "        if type(e) is elasticsearch.ConnectionError:\n            fatal_error = True\n\n        total_ops = 0\n        total_ops_unit = \"ops\"\n        request_meta_data = {\"success\": False, \"error-type\": \"transport\"}\n",
       "        if elasticsearch.ConnectionError == e.__class__:\n            fatal_error = True\n\n        total_ops = 0\n        total_ops_unit = \"ops\"\n        request_meta_data = {\"success\": False}\n        request_meta_data.update({\"error-type\": \"transport\"})\n"),
